@@ -21,6 +21,7 @@ BasicOutcome(o) == IF Crashed(o) THEN o.kind
                    ELSE IF o.ran THEN "ran"
                    ELSE IF o.status = 401 /\ o.chal = "basic" THEN "challenge"
                    ELSE IF o.status = 401 THEN "401-without-basic-challenge"
+                   ELSE IF o.status = 400 THEN "bad-request"
                    ELSE "not-run-not-401"
 JudgeBasic(r) ==
   LET allowed == AllowedBasic(r.scn.pairs, r.scn.hdr)
